@@ -440,9 +440,9 @@ pub fn cases(tier: Tier) -> Vec<Case> {
         }
     }
     // rejection space
-    let nccy = tier.pick(4, 5);
+    // quick: 4 currencies, length <= 4; thorough: additionally 5 currencies with length <= 3 (all patterns)
+    for (nccy, maxlen) in tier.pick(vec![(4usize, 4usize)], vec![(4, 4), (5, 3)]) {
     let pairs_all: Vec<(usize, usize)> = (0..nccy).flat_map(|a| (0..nccy).filter(move |b| *b != a).map(move |b| (a, b))).collect();
-    let maxlen = tier.pick(4, 4);
     let mut seqs: Vec<Vec<(usize, usize)>> = vec![];
     let mut frontier: Vec<Vec<(usize, usize)>> = vec![vec![]];
     for _ in 0..maxlen {
@@ -490,6 +490,7 @@ pub fn cases(tier: Tier) -> Vec<Case> {
                 out.push(Case::Reject { nccy, pairs: s.clone(), base, settle: pat.clone() });
             }
         }
+    }
     }
     out
 }
